@@ -8,7 +8,7 @@
  *   mix fam=mixgev fn=<...> x=<bits> q=<list> mu=<list> l=<list> al=<list>   -> ok <bits>
  *   mixsample fam=<hxp|mixgev> seed=<n> k=<draws> (same parameters)          -> ok <bits>,...
  *   vec fn=<DMax|DMin|DLogSum> v=<list>                                       -> ok <bits>   (esl_vec_D*, n = length >= 1)
- *   sampleof fn=<esl_*_Sample> u=<bits> a=<params>   -> ok <bits>: the sampler run on a generator whose ONE primitive draw
+ *   sampleof fn=<esl_*_Sample> u=<bits> a=<params>   -> ok <bits>[,<arguments the sampler passed to the primitive>]: the sampler run on a generator whose ONE primitive draw
  *        (esl_rnd_UniformPositive / esl_rnd_Gamma / esl_rnd_Gaussian, intercepted with ld --wrap) is forced to return u
  *   mixsampleof fam=<hxp|mixgev> k=<n> u=<bits> (mixture parameters) -> ok <bits>: esl_rnd_DChoose forced to k, the deviate to u
  *   gamsample t=<list> a=<mu,lambda,tau>             -> ok <bits>: esl_gam_Sample on the forced stream t of Gamma variates
@@ -38,14 +38,15 @@
  *      function runs (so `sample` / `mixsample` still use the real generator) ---- */
 static int     forced_on;            /* 0: pass through */
 static double  forced_u[64]; static int forced_n, forced_i, forced_k, forced_exhausted;
+static double forced_args[4]; static int forced_nargs;      /* what the sampler handed to its primitive draw */
 static double forced_next(void) { if (forced_i < forced_n) return forced_u[forced_i++]; forced_exhausted = 1; return 1.0; }
 extern double __real_esl_rnd_UniformPositive(ESL_RANDOMNESS *r);
 extern double __real_esl_rnd_Gamma(ESL_RANDOMNESS *r, double a);
 extern double __real_esl_rnd_Gaussian(ESL_RANDOMNESS *r, double mean, double stddev);
 extern int    __real_esl_rnd_DChoose(ESL_RANDOMNESS *r, const double *p, int N);
-double __wrap_esl_rnd_UniformPositive(ESL_RANDOMNESS *r) { return forced_on ? forced_next() : __real_esl_rnd_UniformPositive(r); }
-double __wrap_esl_rnd_Gamma(ESL_RANDOMNESS *r, double a) { return forced_on ? forced_next() : __real_esl_rnd_Gamma(r, a); }
-double __wrap_esl_rnd_Gaussian(ESL_RANDOMNESS *r, double mean, double stddev) { return forced_on ? forced_next() : __real_esl_rnd_Gaussian(r, mean, stddev); }
+double __wrap_esl_rnd_UniformPositive(ESL_RANDOMNESS *r) { if (!forced_on) return __real_esl_rnd_UniformPositive(r); forced_nargs = 0; return forced_next(); }
+double __wrap_esl_rnd_Gamma(ESL_RANDOMNESS *r, double a) { if (!forced_on) return __real_esl_rnd_Gamma(r, a); forced_args[0] = a; forced_nargs = 1; return forced_next(); }
+double __wrap_esl_rnd_Gaussian(ESL_RANDOMNESS *r, double mean, double stddev) { if (!forced_on) return __real_esl_rnd_Gaussian(r, mean, stddev); forced_args[0] = mean; forced_args[1] = stddev; forced_nargs = 2; return forced_next(); }
 int    __wrap_esl_rnd_DChoose(ESL_RANDOMNESS *r, const double *p, int N) { return forced_on ? forced_k : __real_esl_rnd_DChoose(r, p, N); }
 
 typedef double (*f3_t)(double, double, double);
@@ -261,7 +262,10 @@ static void h_op_inner(void)
     r = (n == 2) ? ((s2_t) stab[i].fp)(R, a[0], a[1]) : ((s3_t) stab[i].fp)(R, a[0], a[1], a[2]);
     forced_on = 0;
     esl_randomness_Destroy(R);
-    if (forced_exhausted || forced_i != 1) h_out("bad-draws"); else h_out("ok %s", h_dbits(r));
+    if (forced_exhausted || forced_i != 1) h_out("bad-draws");
+    else if (forced_nargs == 1) { char b0[20]; strcpy(b0, h_dbits(r)); h_out("ok %s,%s", b0, h_dbits(forced_args[0])); }
+    else if (forced_nargs == 2) { char b0[20], b1[20]; strcpy(b0, h_dbits(r)); strcpy(b1, h_dbits(forced_args[0])); h_out("ok %s,%s,%s", b0, b1, h_dbits(forced_args[1])); }
+    else h_out("ok %s", h_dbits(r));
   } else if (!strcmp(op, "gamsample")) {
     double r; ESL_RANDOMNESS *R;
     if (n != 3) { h_out("bad-op"); return; }
@@ -269,7 +273,7 @@ static void h_op_inner(void)
     R = esl_randomness_Create(1);
     forced_on = 1; r = esl_gam_Sample(R, a[0], a[1], a[2]); forced_on = 0;
     esl_randomness_Destroy(R);
-    if (forced_exhausted) h_out("hang"); else h_out("ok %s", h_dbits(r));
+    if (forced_exhausted) h_out("hang"); else { char b0[20]; strcpy(b0, h_dbits(r)); h_out("ok %s,%s", b0, h_dbits(forced_args[0])); }
   } else if (!strcmp(op, "sample")) {
     uint32_t seed = (uint32_t) h_argu("seed", 1); int k = (int) h_argi("k", 1), j;
     ESL_RANDOMNESS *R; char *buf, *p;
